@@ -88,8 +88,18 @@ def known_key(run, node, k):
     allk = ("rows", "nulls", "min", "max", "sum", "ndv")
     o, whole = contract.origin_at(run, node, "C29", allk, p)
     d = o.get("detail", "")
+    if p == -2:
+        # the statistics-registry path; judged like the whole node.  Its own defect: operators with a fetch are passed through
+        ctx_bad = any(b["n"] == o["id"] and b["p"] == -1 for b in run["rust_bad"]["C29"])
+        if not ctx_bad and re.search(r"\bfetch=\d", d) and o["name"] in ("CoalescePartitionsExec", "SortPreservingMergeExec", "SortExec", "SortExec(TopK)", "RepartitionExec"):
+            return "statistics-registry-passthrough-ignores-fetch"
+        # otherwise the registry repeats what the built-in path reports at the origin: same defect, same key
+        twins = [b for b in run["rust_bad"]["C29"] if b["n"] == o["id"] and b["p"] == -1 and b["f"] == f]
+        if twins:
+            return known_key(run, o, contract.bkey(twins[0]))
+        return None
     # the violated entry comes from the per-partition path (partition_statistics(Some(p))) and the whole-node path holds
-    part = not any(b["n"] == o["id"] and b["p"] == -1 for b in run["rust_bad"]["C29"])
+    part = not any(b["n"] == o["id"] and b["p"] < 0 for b in run["rust_bad"]["C29"])
     if o["name"] == "DataSourceExec" and "partition_sizes=" in d and "fetch=" in d:
         return "memory-source-statistics-ignore-fetch"
     if o["name"] == "DataSourceExec" and "file_groups=" in d and re.search(r"\blimit=\d", d):
@@ -133,13 +143,14 @@ def run(ctx):
         return
     cfgs = QUICK_CFG if ctx.quick else ALL_CFG
     lines, meta, tlcruns = contract.build_runs(ctx, n_tlc=40 if ctx.quick else 300, n_big=1 if ctx.quick else 5, configs=cfgs,
-                                               corpus=1 if ctx.quick else 3, extra_corpus=STATQ, corpus_tlc_db=True,
+                                               corpus=1 if ctx.quick else 3, extra_corpus=STATQ, corpus_tlc_db=not ctx.quick, corpus_cfgs=3 if ctx.quick else None,
                                                gens=None if ctx.quick else [(2, 2, ctx.seed), (3, 2, ctx.seed + 1000), (4, 1, ctx.seed + 2000)])
     # databases for the aggregate-from-statistics cases: the larger random ones and a TLC-generated one
     dbs = []
     for rid, m in meta.items():
         if m["src"] == "corpus" and not any(m["tables"][0]["rows"] == d[0]["rows"] for d in dbs) and not m["tables"][0].get("sort"):
             dbs.append([{k: v for k, v in t.items() if k != "sort"} for t in m["tables"]])
+    contract.matrix_runs(ctx, lines, meta, thorough=not ctx.quick)
     al, am = agg_lines(dbs[:2 if ctx.quick else 4], cfgs)
     lines += al
     meta.update(am)
@@ -147,6 +158,7 @@ def run(ctx):
     attach_agg(runs, meta)
     res = contract.judge(ctx, "C29", runs, meta, known_key=known_key)
     ok = [r for r in runs if r["status"] == "ok"]
+    judged_ops = contract.require_operators(ok, contract.REQUIRED_OPERATORS)
     exact = collections.Counter()
     judged = collections.Counter()
     for r in ok:
@@ -173,7 +185,8 @@ def run(ctx):
                 "reports an Exact statistic, was consumed in full and emitted at least one row",
         "samples": [{"sql": meta[sample["id"]]["sql"], "cfg": meta[sample["id"]]["cfg"], "plan": sample["plan"], "result": sample["result"][:3],
                      "node": sn["detail"], "exact_statistics": sn["stats"][:1]}],
-        "configurations": cfgs, "operator_coverage": contract.coverage(ok),
+        "configurations": cfgs + sorted({c for f in contract.FAMILIES.values() for c in f[1]}), "operator_coverage": contract.coverage(ok),
+        "operators_judged_output_consumed_in_full": judged_ops, "operator_types_not_reached": contract.NOT_REACHED,
         "exact_components_by_operator": dict(sorted(exact.items())), "exact_components_judged": dict(judged),
         "aggregate_queries": aggn, "aggregate_queries_answered_from_statistics": rewritten,
         "sources": dict(collections.Counter(meta[r["id"]]["src"] for r in ok)),
